@@ -159,7 +159,7 @@ pub fn generate_long_run<M: Machine>(verif_seed: u64, run: u64, max_pow10: u32) 
     // 10^5 .. 10^max
     let exp = 5.0 + r.unit() * (max_pow10 as f64 - 5.0);
     let n = 10f64.powf(exp) as u32;
-    let mut family = *r.pick(&[0u8, 5, 8, 6, 7, 9, 1, 3]);
+    let mut family = *r.pick(&[0u8, 5, 8, 6, 7, 9, 1, 3, FAM_ALTERNATING, FAM_ALTERNATING]);
     if M::FAMILY == Family::Sum && r.chance(0.5) {
         family = *r.pick(&[FAM_TINY, FAM_HUGE, FAM_VANISHING, FAM_VANISHING, FAM_NEAR_UNDERFLOW, FAM_NEAR_UNDERFLOW]);
     }
